@@ -1,13 +1,14 @@
 """C15 — ASCII BASIC conversion round-trips listings line for line"""
 from framework import scale, CaseResult, text_points, points_text
 from props.basiccommon import run_lst2bas, run_bas2lst, split_listing_lines
+from props.tapecommon import CaseDir, run_tool
 
 GEN_FILES = ["GenBasic"]
 RULE = ("(a) text listings of 0..8 lines over 7-bit characters, blank lines, trailing blanks of every Python whitespace kind (space, tab, VT, FF, FS..US, NEL, NBSP, "
         "U+2003, U+3000), non-ASCII characters, CR/LF/CRLF terminators, with/without final newline -> lst2bas ',a'; (b) ASCII BASIC byte files of 0..60 bytes over "
         "{CR, LF, printable, 00, 80..FF} with any mix of separators -> bas2lst ',a' with and without --dos; (c) the composition on (a). Oracles, independent of the model: "
         "(a) output = CR + for each line (keep-7-bit(rstrip(line)) + CR); (b) output = the non-empty CR/LF-separated pieces, each followed by the selected line ending, never an empty line; "
-        "(c) = the non-blank lines of (a)'s right-trimmed 7-bit lines. signature = sorted features {blank-line, trailing-ws, unicode-ws, non-ascii, crlf, cr, no-final-nl, dos, "
+        "(c) = the non-blank lines of (a)'s right-trimmed 7-bit lines; (d) several sources given to ONE invocation of either tool: every output equals the output of a run on that source alone. signature = sorted features {blank-line, trailing-ws, unicode-ws, non-ascii, crlf, cr, no-final-nl, dos, "
         "sep-run, leading-sep, high-bytes}; non-trivial = at least two features")
 ASSUMPTIONS = ["listings are valid UTF-8 (the tool opens them in text mode with the strict handler)"]
 
@@ -78,7 +79,15 @@ def gen_cases(rng, tier):
         lines, sep, lead = gen_long_lines(rng)
         term = rng.choice(["\n", "\r\n", "\r"])
         cases.append({"kind": "lst", "text": term.join(lines) + term, "dos": rng.random() < 0.5})
-    return cases, {"listings": n, "ascii files": n, "long ascii files with separators at buffer-size offsets": nb, "long listings": nb}
+    nm = scale(tier, 40, 600)
+    for _ in range(nm):
+        # several sources in ONE invocation: every output is what a run on that source alone gives
+        if rng.random() < 0.5:
+            cases.append({"kind": "multi", "tool": "bas2lst", "dos": rng.random() < 0.5, "items": [gen_ascii_file(rng).hex() for _ in range(rng.choice([2, 2, 3, 4]))]})
+        else:
+            cases.append({"kind": "multi", "tool": "lst2bas", "dos": False, "items": [gen_listing(rng) for _ in range(rng.choice([2, 2, 3]))]})
+    cases.append({"kind": "multi", "tool": "bas2lst", "dos": False, "items": [b"10 A".hex(), b"\r10 CLS\r20 END\r".hex(), b"".hex(), b"\n\n5 X".hex(), b"\r\n7 Y\r\n".hex()]})
+    return cases, {"listings": n, "ascii files": n, "long ascii files with separators at buffer-size offsets": nb, "long listings": nb, "several sources in one run": nm + 1}
 
 
 def py_isspace_strip(l):
@@ -109,7 +118,44 @@ def want_lst(data, dos):
     return out
 
 
+def run_multi(case, ctx):
+    cd = CaseDir(ctx)
+    try:
+        dis = bad = None
+        tool = case["tool"]
+        names = []
+        for k, it in enumerate(case["items"]):
+            nm = "f%d.%s" % (k, "bas" if tool == "bas2lst" else "lst")
+            cd.put(nm, bytes.fromhex(it) if tool == "bas2lst" else it.encode("utf-8", "surrogateescape"))
+            names.append(nm)
+        r = run_tool(ctx, tool, (["--dos"] if case["dos"] else []) + [n + ",a" for n in names], cd)
+        if r.get("status") != 0 or r.get("exc"):
+            bad = {"tool failed": [r.get("status"), r.get("exc"), r.get("msg")]}
+        else:
+            for k, (nm, it) in enumerate(zip(names, case["items"])):
+                out = cd.get(nm[:-3] + ("lst" if tool == "bas2lst" else "bas"))
+                if tool == "bas2lst":
+                    data = bytes.fromhex(it)
+                    w = want_lst(data, case["dos"])
+                    m = bytes(ctx.model.call("ascii_to_lst", case["dos"], data))
+                else:
+                    w = want_ascii(it)
+                    m = bytes(ctx.model.call("lst_to_ascii", ctx.model.call("readlines_file", text_points(it))))
+                if out != w:
+                    bad = {"output of source differs from a run on it alone": k, "got": (out or b"").hex()[:80], "want": w.hex()[:80]}
+                    break
+                if out != m:
+                    dis = {"source": k, "impl": (out or b"").hex()[:80], "model": m.hex()[:80]}
+        f = ["multi", tool, "n:%d" % len(case["items"])] + (["dos"] if case["dos"] else [])
+        detail = {"disagreement": dis, "oracle": bad} if (dis or bad) else None
+        return CaseResult(dis is None, bad is None, detail, f, True)
+    finally:
+        cd.close()
+
+
 def run_case(case, ctx):
+    if case["kind"] == "multi":
+        return run_multi(case, ctx)
     f = set()
     dis = bad = None
     if case["kind"] == "lst":
@@ -184,6 +230,12 @@ def run_case(case, ctx):
 
 
 def shrink_candidates(case):
+    if case["kind"] == "multi":
+        it = case["items"]
+        for k in range(len(it)):
+            if len(it) > 1:
+                yield dict(case, items=it[:k] + it[k + 1:])
+        return
     if case["kind"] == "lst":
         t = case["text"]
         for j in range(len(t)):
